@@ -400,6 +400,21 @@ Proof.
   destruct (ty =? T_PUBCOMP)%N; [apply infl_del_inv, H|exact H].
 Qed.
 
+Lemma step_publish_fault_inv d s id qos pid rop topic rej :
+  inv_off d s -> inv_off d (step_publish_fault s id qos pid rop topic rej).
+Proof.
+  intros H. unfold step_publish_fault. destruct rej; [exact H|].
+  destruct (find_ty pid (infl_of s id)) as [t|].
+  - destruct (t =? T_PUBREC)%N; [exact H|]. apply infl_set_inv, retain_inv, infl_del_inv, H.
+  - apply infl_set_inv, retain_inv, H.
+Qed.
+
+Lemma step_pubrel_fault_inv d s id pid : inv_off d s -> inv_off d (step_pubrel_fault s id pid).
+Proof.
+  intros H. unfold step_pubrel_fault. destruct (mem_pid pid (infl_of s id)) eqn:M; [|exact H].
+  apply infl_set_ignore_inv; assumption.
+Qed.
+
 Theorem step_inv s o : inv_off 0 s -> inv_off 0 (step s o).
 Proof.
   intros H. destruct o; cbn [step].
@@ -413,6 +428,8 @@ Proof.
   - apply with_ret_inv, H.
   - apply fold_inv; [intros; apply infl_del_inv; assumption|exact H].
   - apply with_ret_inv, H.
+  - apply step_publish_fault_inv, H.
+  - apply step_pubrel_fault_inv, H.
 Qed.
 
 Lemma init_inv : inv_off 0 init.
